@@ -54,8 +54,10 @@ def data_class(m):
     return "real"
 
 
-def gen_data(rng, npr, m, n):
+def gen_data(rng, npr, m, n, signed=False):
     cls = data_class(m)
+    if signed and cls == "positive":
+        cls = "real"          # braycurtis / canberra are defined (and unbounded / bounded by dim) on mixed-sign data as well
     if cls == "binary":
         # binary metrics take few distinct values (hamming: multiples of 1/dim): many features and row densities away from 1/2
         # spread the distances enough for the k+2 nearest of every row to be pairwise distinct after a few draws
@@ -141,13 +143,15 @@ def kw_desc(kw):
     return {k: (np.asarray(v).tolist() if hasattr(v, "__len__") else v) for k, v in kw.items()}
 
 
-def make_case(rng, npr, m, reg):
+def make_case(rng, npr, m, reg, signed=False):
     for attempt in range(200):
         n = rng.randint(20, 40)
         k = rng.randint(3, 9)
         if data_class(m) == "binary":
             n, k = rng.randint(20, 26), rng.randint(3, 4)
-        X = gen_data(rng, npr, m, n)
+        if signed:
+            n = rng.randint(22, 30); k = rng.randint(n // 2, n - 4)     # wide neighbourhoods: kNN distances of mixed-sign data exceed 1
+        X = gen_data(rng, npr, m, n, signed)
         kw = gen_kwds(rng, npr, m, X.shape[1])
         try:
             D = pairwise(reg[m], X, kw)
@@ -293,16 +297,20 @@ def run(ctx):
         rng.shuffle(rest)
         plan = pick + rest[:14]
         plan += ["euclidean"]          # a second Euclidean data set (feature permutation / translation)
+        plan += [("braycurtis", "signed"), ("canberra", "signed")]     # mixed-sign data, wide neighbourhoods (distances beyond 1)
     else:
-        plan = names * 3 + ["euclidean", "l2"] * 6
+        plan = names * 3 + ["euclidean", "l2"] * 6 + [("braycurtis", "signed"), ("canberra", "signed")] * 4
     ctx.extra["metrics_this_run"] = plan
     terms, cases = [], []
     for m in plan:
-        case = make_case(rng, npr, m, reg)
+        signed = isinstance(m, tuple)
+        if signed: m = m[0]
+        if m not in names: continue
+        case = make_case(rng, npr, m, reg, signed)
         if "error" in case:      # not a property failure: the harness could not build an admissible input for this name
             ctx.notes.append("no admissible data set for metric %s: %s" % (m, case["error"])); ctx.count("generator_gave_up"); continue
         res = relations(ctx, rng, npr, case, reg)
-        tags = ["metric_" + m, "data_" + data_class(m)] + (["kwds"] if case["kw"] else []) + (["r<1"] if case["r"] < 1 else []) + (["lc2"] if case["lc"] == 2 else [])
+        tags = ["metric_" + m, "data_" + ("signed" if signed else data_class(m))] + (["kwds"] if case["kw"] else []) + (["r<1"] if case["r"] < 1 else []) + (["lc2"] if case["lc"] == 2 else [])
         ctx.tag((m, case["X"].tobytes(), case["k"], case["r"]), tags)
         ctx.count("n<=30" if case["n"] <= 30 else "n>30"); ctx.count("k=%d" % case["k"]); ctx.count("class_" + data_class(m))
         ctx.sample(dict(metric=m, kwds=sorted(case["kw"]), n=case["n"], dim=int(case["X"].shape[1]), k=case["k"], r=case["r"], lc=case["lc"],
